@@ -132,7 +132,106 @@ def replay(scn, rng, k):
     return v
 
 
+class _DiscCapture(logging.Handler):
+    def __init__(self):
+        super().__init__(level=logging.INFO)
+        self.printed, self.none_found = [], False
+
+    def emit(self, record):
+        if record.levelno == logging.ERROR and str(record.msg).startswith("No devices found"):
+            self.none_found = True
+        if record.levelno == logging.INFO and str(record.msg).startswith("Found device:") and record.args:
+            a = record.args[0] if isinstance(record.args, tuple) else record.args
+            if isinstance(a, dict):
+                self.printed.append(a)
+
+
+def discover_run(rng, k):
+    """One `msmart-ng discover [HOST] [--count N]` run: V2 repliers (air conditioners and other appliance types), duplicates, an odd replier."""
+    from .drivers.c17 import rand_identity, build
+    from .drivers.c18 import bad_reply
+    from msmart.discover import Discover
+    single = k % 3 == 0
+    count = [None, 1, 2, 4, 3][k % 5]
+    n = rng.choice([0, 1, 1, 2, 3]) if not single else rng.choice([0, 1, 1])
+    plan = []
+    for j in range(n):
+        ip = "10.7.%d.%d" % (k % 250, 10 + j)
+        ident = rand_identity(rng, typ=rng.choice([0xAC, 0xAC, 0xA1, 0xE1, rng.randrange(256)]), port=6444)
+        rep = build(rng, ident, ip, 2)
+        for _ in range(rng.choice([1, 1, 2])):
+            plan.append((0.2 + rng.random() * 2, ip, rng.choice([6445, 20086]), rep))
+    if k % 4 == 1:
+        oip = "10.7.%d.200" % (k % 250)
+        plan.append((0.1 + rng.random(), oip, 6445, bad_reply(rng.choice(["random", "short_body", "bad_padding", "trunc", "no_separator"]), rng, oip)))
+    plan.sort(key=lambda x: x[0])
+    host = plan[0][1] if (single and plan) else ("10.7.9.9" if single else "")
+    arrivals, udp = [], []
+
+    def setup(loop, net):
+        state = {"armed": False}
+
+        def on_udp(tr, data, addr):
+            udp.append(tr)
+            if state["armed"]:
+                return
+            state["armed"] = True
+            for q, (delay, ip, port, d) in enumerate(plan):
+                def fire(ip=ip, port=port, d=d):
+                    arrivals.append({"ip": ip, "port": port, "data": B(d), "o": disc.oracle(d)})
+                    tr.inject(d, (ip, port))
+                loop.call_later(delay + q * 1e-6, fire)
+        net.on_udp = on_udp
+        udp.append(net)
+    Discover._lock = None
+    cap = _DiscCapture()
+    lg = logging.getLogger("msmart.cli")
+    old, old_dis, old_h = lg.level, logging.root.manager.disable, logging.root.handlers
+    logging.disable(logging.NOTSET)
+    logging.root.handlers = [logging.NullHandler()]
+    lg.setLevel(logging.INFO)
+    lg.addHandler(cap)
+    argv = ["discover"] + ([host] if single else []) + (["--count", str(count)] if count is not None else [])
+    try:
+        obs = run_cli(argv, acdev.ACModel(), 2, setup)
+    finally:
+        lg.removeHandler(cap)
+        lg.setLevel(old)
+        logging.root.handlers = old_h
+        logging.disable(old_dis)
+    net = udp[-1] if udp and not hasattr(udp[-1], "inject") else next((x for x in udp if not hasattr(x, "inject")), None)
+    probes = [{"data": B(data), "o": disc.probe_oracle(data), "host": addr[0], "port": addr[1]} for data, addr in (net.udp.sent if net is not None and net.udp else [])]
+    printed = [{"ip": str(d["ip"]), "port": int(d["port"]), "id": B(int(d["id"]).to_bytes(6, "little")) if 0 <= int(d["id"]) < 2 ** 48 else [],
+                "sn": B((d["sn"] or "").encode()), "name": B((d["name"] or "").encode()), "type": int(d["type"])} for d in cap.printed]
+    return {"host": host, "count": 3 if count is None else count, "probes": probes, "arrivals": arrivals, "printed": printed, "none_found": cap.none_found,
+            "exit": obs["exit"], "exc": obs["exc"], "argv": argv}
+
+
+def growth_discover(ctx: Ctx):
+    vectors = [discover_run(ctx.rng, k) for k in range(ctx.pick(60, 600))]
+    n = len(vectors)
+    cans = []
+    for v in vectors:
+        if v["printed"] and len(cans) < 1:
+            c = json.loads(json.dumps(v)); c["printed"][0]["port"] += 1; cans.append(c)
+        if v["printed"] and v["host"] == "" and len(cans) < 2:
+            c = json.loads(json.dumps(v)); c["printed"] = c["printed"][1:]; c["none_found"] = not c["printed"]; cans.append(c)
+    c = json.loads(json.dumps(vectors[0])); c["probes"] = c["probes"][1:]; cans.append(c)
+    c = json.loads(json.dumps(vectors[0])); c["exit"] = 1; cans.append(c)
+    rej = dict(ctx.validate_vectors("Trace_CliDiscover", vectors + cans, name=f"{ctx.pid}_Trace_CliDiscover"))
+    missed = [j for j in range(n, n + len(cans)) if j not in rej]
+    if missed:
+        ctx.defer_machinery("Trace_CliDiscover accepted a canary")
+    for j, clause in rej.items():
+        if j < n:
+            ctx.drift.append({"what": "msmart-ng discover (beyond the listed properties): " + clause, "argv": vectors[j]["argv"]})
+    ctx.traces_validated -= len(cans) - len(missed)
+    ctx.extra["cli_discover_growth"] = {"runs": n, "accepted": n - len([j for j in rej if j < n]), "canaries_rejected": len(cans) - len(missed),
+                                        "devices_printed": sum(len(v["printed"]) for v in vectors), "runs_without_any_replier": sum(1 for v in vectors if not v["arrivals"])}
+
+
 def growth(ctx: Ctx):
+    growth_discover(ctx)
     ctx.mc("MC_CliQuery", "SPECIFICATION QSpec\n" + CFG, name=f"{ctx.pid}_mc_cliquery", timeout=600)
     r = run_tlc("Gen_CliQuery", "SPECIFICATION QSpec\nCONSTANTS\nRetries = 3\nCONSTRAINT GEmit\nCHECK_DEADLOCK FALSE\n", name=f"{ctx.pid}_gen_cliquery", workers=1, timeout=600)
     scn = [json.loads(p[1]) for p in r.prints if isinstance(p, list) and p and p[0] == "SCN"]
